@@ -1,4 +1,5 @@
 //! Shared, library-independent parts of the verification harness.
+pub mod alloc;
 pub mod case;
 pub mod digest;
 pub mod refcell;
